@@ -157,17 +157,6 @@ fn expand(s: &GameState, which: usize) -> Vec<u64> {
 fn b1(threads: usize) {
     let mut acts = history_actions();
     acts.extend([mv(26, Direction::Left), mv(27, Direction::Left), mv(25, Direction::Up)]); // E c5-b5, pull c d5-c5, E b5-b6
-    let reference = play(&acts, true);
-    let n = reference.len();
-    let (rh, rs1, rs3) = (&reference[n - 4], &reference[n - 3], &reference[n - 1]);
-    let expected: Vec<Vec<u64>> = (0..threads)
-        .map(|i| {
-            let mut o = expand(rh, i + 2);
-            o.extend(expand(rs1, i));
-            o.extend(expand(rs3, i + 1));
-            o
-        })
-        .collect();
     let mut fresh = play(&acts, false);
     let s3 = fresh.pop().unwrap();
     let _s2 = fresh.pop().unwrap();
@@ -193,9 +182,17 @@ fn b1(threads: usize) {
     drop(a1);
     drop(a3);
     drop(a0);
-    for (i, h) in hs.into_iter().enumerate() {
-        let got = h.join().unwrap();
-        assert_eq!(got, expected[i], "B1: thread {} observed results that differ from sequential expansion", i);
+    let got: Vec<Vec<u64>> = hs.into_iter().map(|h| h.join().unwrap()).collect();
+    // The sequential reference is computed AFTER the threads: they were the first to query anything in this execution
+    // (loom re-creates lazily initialised statics for every execution, so each interleaving is a cold start).
+    let reference = play(&acts, true);
+    let n = reference.len();
+    let (rh, rs1, rs3) = (&reference[n - 4], &reference[n - 3], &reference[n - 1]);
+    for (i, g) in got.iter().enumerate() {
+        let mut o = expand(rh, i + 2);
+        o.extend(expand(rs1, i));
+        o.extend(expand(rs3, i + 1));
+        assert_eq!(*g, o, "B1: thread {} observed results that differ from sequential expansion", i);
     }
     drop(reference);
 }
@@ -335,19 +332,6 @@ fn b5(threads: usize) {
         }
     }
     acts.push(mv(6, Direction::Right)); // Silver r g8 -> h8 : passing now would restore the root position a third time
-    let reference = play(&acts, true);
-    let n = reference.len();
-    let (rt0, rt1) = (&reference[n - 2], &reference[n - 1]);
-    assert!(!rt1.valid_actions().contains(&Action::Pass), "B5 set-up: the pass should be withheld as a third repetition");
-    assert!(rt1.valid_actions_no_rep().contains(&Action::Pass));
-    let expected: Vec<Vec<u64>> = (0..threads)
-        .map(|i| {
-            let mut o = vec![rt1.can_pass(true) as u64];
-            o.extend(expand(rt1, i));
-            o.extend(expand(rt0, i + 1));
-            o
-        })
-        .collect();
     let mut fresh = play(&acts, false);
     let t1 = fresh.pop().unwrap();
     let t0 = fresh.pop().unwrap();
@@ -367,8 +351,18 @@ fn b5(threads: usize) {
     }
     drop(a0);
     drop(a1);
-    for (i, h) in hs.into_iter().enumerate() {
-        assert_eq!(h.join().unwrap(), expected[i], "B5: thread {} observed results that differ from sequential expansion (repetition-sensitive state)", i);
+    let got: Vec<Vec<u64>> = hs.into_iter().map(|h| h.join().unwrap()).collect();
+    // reference after the threads (see B1)
+    let reference = play(&acts, true);
+    let n = reference.len();
+    let (rt0, rt1) = (&reference[n - 2], &reference[n - 1]);
+    assert!(!rt1.valid_actions().contains(&Action::Pass), "B5 set-up: the pass should be withheld as a third repetition");
+    assert!(rt1.valid_actions_no_rep().contains(&Action::Pass));
+    for (i, g) in got.iter().enumerate() {
+        let mut o = vec![rt1.can_pass(true) as u64];
+        o.extend(expand(rt1, i));
+        o.extend(expand(rt0, i + 1));
+        assert_eq!(*g, o, "B5: thread {} observed results that differ from sequential expansion (repetition-sensitive state)", i);
     }
     drop(reference);
 }
